@@ -1,9 +1,11 @@
 ------------------------------- MODULE MC_Construct -------------------------------
 EXTENDS Construct
+\* spread classes (degrees): 10, 25, 40, 57 = cos^2s exponents 50, 10, 4, 1; 66 = a broad non-integer exponent below one; 81 = exponent 0,
+\* the uniform spreading, whose spread is the largest possible, sqrt(2) rad
 \* parameter lattice: <<shape, hs*10, fp index (x100 Hz), gamma*10, ndir, dm*10, dspr, depth, extra-dim>>
 Shapes == {"pm", "jonswap", "tma", "gaussian"}
 ParamSet == {<<sh, hs, fp, ga, nd, dm, ds, dep, xd>> :
                sh \in Shapes, hs \in {5, 25, 70}, fp \in {8, 10, 13}, ga \in {10, 33, 70}, nd \in {7, 8, 24, 36, 48, 72},
-               dm \in {0, 30, 1800, 3575}, ds \in {10, 25, 40}, dep \in {15, 5000}, xd \in {0, 1}}
+               dm \in {0, 30, 1800, 3575}, ds \in {10, 25, 40, 57, 66, 81}, dep \in {15, 5000}, xd \in {0, 1}}
 ParamSmall == {p \in ParamSet : (p[1] \in {"jonswap", "tma"} \/ p[4] = 33) /\ (p[1] = "tma" \/ p[8] = 5000)}
 =============================================================================
